@@ -75,10 +75,21 @@ def gen_case(rng):
         # earlier configuration: a probe there comes back processed twice)
         used.add(a)
         pre[i] = a
+    if mode in ("initialize", "scan") and rng.random() < 0.3:
+        # a range with exactly as many addresses as there are terminals
+        # (all of them unaddressed): the last free address is found while
+        # the others are still being written
+        n = rng.randint(2, 10)
+        hi = lo + n - 1
+        pre = {}
     return dict(n=n, range=[lo, hi], pre={str(k): v for k, v in pre.items()},
-                mode=mode,
+                mode=mode, tight=(hi - lo + 1 == n and not pre),
                 stagger=[rng.randint(0, 60) for _ in range(8)],
-                delays=[rng.choice([0.0001, 0.0002, 0.001]) for _ in
+                # now and then a reply takes a third of a second and more
+                # (a long segment, a busy gateway): no verdict may hang on
+                # how long a probe takes
+                delays=[rng.choice([0.0001, 0.0002, 0.001] * 8
+                                   + [0.35, 1.2]) for _ in
                         range(20)], rseed=rng.getrandbits(32),
                 # transport faults: some reply frames arrive truncated
                 faults=rng.choice([0, 0, 0, 0.02, 0.06]),
@@ -289,6 +300,8 @@ def check_case(case, res):
     res.case(case, nontrivial=len(writes) >= 2)
     res.count("address_writes", len(writes))
     res.count("mode[" + case["mode"] + "]")
+    if case.get("tight"):
+        res.count("ranges_with_exactly_one_address_per_terminal")
     if "watchdog" in result:
         res.inconc(f"wall-clock watchdog fired for {case}")
         return
